@@ -203,6 +203,22 @@ type region struct {
 	IntArgs map[string][]int
 	// LoopBody: the region is the body of a loop: `continue` / `break` end the path.
 	LoopBody bool
+	// LoopHeader: a `for` / `range` statement is one effect labelled by its header only (`for _, x :=
+	// range xs { }`); its body is translated as a region of its own (LoopBody).  When the body holds a
+	// `return`, the effect is followed by a test of the atom `returned(<header>)`: true = the function
+	// returned from inside the loop (`Val.label "return in loop"`).
+	LoopHeader bool
+	// ElideFuncLits: function literals among the arguments of an effect call are rendered `ƒ` in the
+	// label (their bodies are translated as regions of their own).
+	ElideFuncLits bool
+	// CommaOk: the pure two-valued forms `v, ok := m[k]` / `x.(T)` bind `v` to the expression and `ok`
+	// to the atom `ok(<expression>)` (without the option `ok` is an opaque name of its own).
+	CommaOk bool
+	// SubstLabels: effect labels of calls and assignments, and the text of uninterpreted result lists,
+	// are rendered after substitution of the region's locals (so that the label shows *what* is
+	// written / passed: `m.AddQuery(append(prefix, origin), c)` rather than `m.AddQuery(query, c)`);
+	// `delete(m, k)` makes later reads of `m[k]` a new opaque value.
+	SubstLabels bool
 }
 
 // ---------------------------------------------------------------- environment
@@ -507,6 +523,10 @@ func isIdent(x ast.Expr, name string) bool {
 	return ok && id.Name == name
 }
 
+func isBoolLit(x ast.Expr) bool {
+	return isIdent(strip(x), "true") || isIdent(strip(x), "false")
+}
+
 func strip(x ast.Expr) ast.Expr {
 	for {
 		p, ok := x.(*ast.ParenExpr)
@@ -626,8 +646,18 @@ func (t *tr) eq(x, y ast.Expr) string {
 		return "(" + t.sexp(x) + " == " + t.sexp(y) + ")"
 	case kx == tBool && ky == tBool:
 		return "(" + t.bexp(x) + " == " + t.bexp(y) + ")"
+	case isBoolLit(x) || isBoolLit(y):
+		// `x == false`, `true == x`: the other operand is a boolean
+		return "(" + t.bexp(x) + " == " + t.bexp(y) + ")"
 	}
-	// an uninterpreted comparison (pointers, errors, enum constants …): one boolean atom
+	if isIdent(strip(x), "nil") && isIdent(strip(y), "nil") {
+		return "true" // a variable known to hold its zero value (`var err error`)
+	}
+	// an uninterpreted comparison (pointers, errors, enum constants …): one boolean atom; `nil == x`
+	// is the atom `x == nil`
+	if isIdent(strip(x), "nil") {
+		x, y = y, x
+	}
 	return t.atomText(render(strip(x))+" == "+render(strip(y)), tBool, 0)
 }
 
@@ -770,6 +800,32 @@ func (t *tr) effect(label string, args []string, e *env, k cont) node {
 // opaqueStmt: a statement the translator does not interpret (loop, general select): one effect
 // label; whatever it may assign is unknown afterwards.
 func (t *tr) opaqueStmt(s ast.Stmt, e *env, k cont) node {
+	if t.r.LoopHeader {
+		if hdr := loopHeader(s); hdr != "" {
+			why := hasEscape(s)
+			if why != "" && why != "a return" {
+				fail("`%.60s…` contains %s (control flow out of an uninterpreted statement)", render(s), why)
+			}
+			if t.r.SubstLabels {
+				// what the locals the loop assigns hold on entry is part of the label
+				for _, l := range assigned(s) {
+					if e.declaredAt(l) > 0 {
+						if v, ok := e.lookup(l); ok {
+							hdr += " | " + l + " = " + render(v)
+						}
+					}
+				}
+			}
+			for _, l := range assigned(s) {
+				e.set(l, e.opaque(l))
+			}
+			if why == "" {
+				return t.effect(hdr, nil, e, k)
+			}
+			cond := t.atomText("returned("+hdr+")", tBool, 0)
+			return t.mk(nEff{label: hdr, k: t.ifNode(cond, nRet{"(.label \"return in loop\")"}, k(e))})
+		}
+	}
 	if why := hasEscape(s); why != "" {
 		fail("`%.60s…` contains %s (control flow out of an uninterpreted statement)", render(s), why)
 	}
@@ -779,16 +835,84 @@ func (t *tr) opaqueStmt(s ast.Stmt, e *env, k cont) node {
 	return t.effect(render(s), nil, e, k)
 }
 
+// loopHeader: `for … { }` without the body ("" = not a loop).
+func loopHeader(s ast.Stmt) string {
+	switch v := s.(type) {
+	case *ast.RangeStmt:
+		c := *v
+		c.Body = &ast.BlockStmt{}
+		return render(&c)
+	case *ast.ForStmt:
+		c := *v
+		c.Body = &ast.BlockStmt{}
+		return render(&c)
+	}
+	return ""
+}
+
+// elided: the call with the function literals among its arguments replaced by `ƒ`.
+func elided(c *ast.CallExpr) *ast.CallExpr {
+	n := *c
+	n.Args = make([]ast.Expr, len(c.Args))
+	for i, a := range c.Args {
+		if _, ok := a.(*ast.FuncLit); ok {
+			a = &ast.Ident{Name: "ƒ"}
+		}
+		n.Args[i] = a
+	}
+	return &n
+}
+
 func (t *tr) callEffect(prefix string, c *ast.CallExpr, e *env, k cont) node {
 	callee := render(c.Fun)
 	if t.dropped(callee) {
 		return k(e)
+	}
+	if t.r.ElideFuncLits {
+		// what the closures handed to the call assign is unknown afterwards
+		for _, a := range c.Args {
+			if fl, ok := a.(*ast.FuncLit); ok {
+				for _, l := range assigned(fl) {
+					if e.declaredAt(l) > 0 || e.scopes[0][l] != nil {
+						e.set(l, e.opaque(l))
+					} else {
+						e.scopes[0][l] = e.opaque(l)
+					}
+				}
+			}
+		}
+		c2 := elided(c)
+		if _, ok := c.Fun.(*ast.FuncLit); ok {
+			// `defer func() { … }()`: the closure is a region of its own
+			c2.Fun = &ast.Ident{Name: "ƒ"}
+			for _, l := range assigned(c.Fun) {
+				e.set(l, e.opaque(l))
+			}
+		}
+		var args []string
+		for _, i := range t.r.IntArgs[callee] {
+			if i < len(c.Args) {
+				args = append(args, t.iexp(t.subst(e, c.Args[i])))
+			}
+		}
+		if t.r.SubstLabels {
+			return t.effect(prefix+render(t.subst(e, c2)), args, e, k)
+		}
+		return t.effect(prefix+render(c2), args, e, k)
 	}
 	var args []string
 	for _, i := range t.r.IntArgs[callee] {
 		if i < len(c.Args) {
 			args = append(args, t.iexp(t.subst(e, c.Args[i])))
 		}
+	}
+	if t.r.SubstLabels {
+		label := prefix + render(t.subst(e, c))
+		if callee == "delete" && len(c.Args) == 2 {
+			key := render(t.subst(e, &ast.IndexExpr{X: c.Args[0], Index: c.Args[1]}))
+			e.scopes[0][key] = &ast.Ident{Name: key + "·deleted"}
+		}
+		return t.effect(label, args, e, k)
 	}
 	return t.effect(prefix+render(c), args, e, k)
 }
@@ -813,6 +937,15 @@ func (t *tr) isLocal(e *env, x ast.Expr) (string, bool) {
 	return id.Name, e.declaredAt(id.Name) > 0
 }
 
+// isLocalOrNew: x is `_`, a name this `:=` declares, or a name declared in the region.
+func (t *tr) isLocalOrNew(e *env, x ast.Expr, tok token.Token) (string, bool) {
+	id, ok := x.(*ast.Ident)
+	if !ok {
+		return "", false
+	}
+	return id.Name, id.Name == "_" || tok == token.DEFINE || e.declaredAt(id.Name) > 0
+}
+
 func (t *tr) assign(s *ast.AssignStmt, e *env, k cont) node {
 	lhs, rhs, tok := s.Lhs, s.Rhs, s.Tok
 	if tok != token.DEFINE && tok != token.ASSIGN {
@@ -827,6 +960,36 @@ func (t *tr) assign(s *ast.AssignStmt, e *env, k cont) node {
 		tok = token.ASSIGN
 	}
 	text := render(s)
+	if t.r.ElideFuncLits {
+		// `x := func() … { … }()`: the closure applied on the spot is a region of its own
+		c := *s
+		c.Rhs = make([]ast.Expr, len(s.Rhs))
+		for i, r := range s.Rhs {
+			if call, ok := r.(*ast.CallExpr); ok {
+				if _, ok := call.Fun.(*ast.FuncLit); ok {
+					n := *call
+					n.Fun = &ast.Ident{Name: "ƒ"}
+					r = &n
+				}
+			}
+			c.Rhs[i] = r
+		}
+		text = render(&c)
+	}
+	if t.r.SubstLabels && tok != token.DEFINE {
+		// the targets as lvalues (subst0), the values substituted
+		c := *s
+		c.Lhs = make([]ast.Expr, len(s.Lhs))
+		for i, l := range s.Lhs {
+			c.Lhs[i] = t.subst0(e, l)
+		}
+		c.Rhs = t.substList(e, s.Rhs)
+		text = render(&c)
+	} else if t.r.SubstLabels {
+		c := *s
+		c.Rhs = t.substList(e, s.Rhs)
+		text = render(&c)
+	}
 	isEffectCall := func(x ast.Expr) bool {
 		if u, ok := strip(x).(*ast.UnaryExpr); ok && u.Op == token.ARROW {
 			return true // a channel receive
@@ -860,6 +1023,30 @@ func (t *tr) assign(s *ast.AssignStmt, e *env, k cont) node {
 			fail("assignment `%s`", text)
 		}
 		eff := isEffectCall(rhs[0])
+		if t.r.CommaOk && !eff && len(lhs) == 2 {
+			r0 := strip(rhs[0])
+			_, isIdx := r0.(*ast.IndexExpr)
+			_, isTA := r0.(*ast.TypeAssertExpr)
+			l0, ok0 := t.isLocalOrNew(e, lhs[0], tok)
+			l1, ok1 := t.isLocalOrNew(e, lhs[1], tok)
+			if (isIdx || isTA) && ok0 && ok1 {
+				v := t.subst(e, r0)
+				okv := &ast.Ident{Name: "ok(" + render(v) + ")"}
+				bind := func(name string, val ast.Expr) {
+					if name == "_" {
+						return
+					}
+					if tok == token.DEFINE && e.declaredAt(name) != len(e.scopes)-1 {
+						e.declare(name, val)
+					} else {
+						e.set(name, val)
+					}
+				}
+				bind(l0, v)
+				bind(l1, okv)
+				return k(e)
+			}
+		}
 		for _, l := range lhs {
 			if bindOpaque(l) {
 				eff = true
@@ -905,7 +1092,11 @@ func (t *tr) assign(s *ast.AssignStmt, e *env, k cont) node {
 		e.scopes[0][key] = vals[i]
 		if t.kind(vals[i]) == tInt {
 			args = append(args, t.iexp(vals[i]))
-			intTargets = append(intTargets, render(l))
+			if t.r.SubstLabels {
+				intTargets = append(intTargets, key)
+			} else {
+				intTargets = append(intTargets, render(l))
+			}
 		}
 	}
 	if eff {
@@ -972,12 +1163,24 @@ func (t *tr) ret(s *ast.ReturnStmt, e *env) node {
 	}
 	parts := make([]string, len(rs))
 	for i, r := range rs {
-		parts[i] = render(r)
+		if t.r.SubstLabels {
+			parts[i] = render(t.subst(e, r))
+		} else {
+			parts[i] = render(r)
+		}
 	}
 	return nRet{"(.label " + leanString(strings.Join(parts, ", ")) + ")"}
 }
 
-func (t *tr) ifNode(cond string, a, b node) node { return t.mk(nIf{cond, a, b}) }
+func (t *tr) ifNode(cond string, a, b node) node {
+	switch cond {
+	case "true", "(!false)":
+		return a
+	case "false", "(!true)":
+		return b
+	}
+	return t.mk(nIf{cond, a, b})
+}
 
 func (t *tr) stmt(s ast.Stmt, e *env, k cont) node {
 	switch v := s.(type) {
@@ -988,6 +1191,15 @@ func (t *tr) stmt(s ast.Stmt, e *env, k cont) node {
 	case *ast.ExprStmt:
 		if c, ok := v.X.(*ast.CallExpr); ok {
 			return t.callEffect("", c, e, k)
+		}
+		if t.r.SubstLabels {
+			return t.effect(render(t.subst(e, v.X)), nil, e, k)
+		}
+		return t.effect(render(v), nil, e, k)
+	case *ast.SendStmt:
+		// a channel send: an effect (its text); which value is sent is not interpreted
+		if t.r.SubstLabels {
+			return t.effect(render(&ast.SendStmt{Chan: t.subst(e, v.Chan), Value: t.subst(e, v.Value)}), nil, e, k)
 		}
 		return t.effect(render(v), nil, e, k)
 	case *ast.GoStmt:
@@ -1006,7 +1218,11 @@ func (t *tr) stmt(s ast.Stmt, e *env, k cont) node {
 			e.set(name, val)
 			return k(e)
 		}
-		e.scopes[0][render(t.subst0(e, v.X))] = val
+		key := render(t.subst0(e, v.X))
+		e.scopes[0][key] = val
+		if t.r.SubstLabels {
+			return t.effect(key+" = _", []string{t.iexp(val)}, e, k)
+		}
 		return t.effect(render(v.X)+" = _", []string{t.iexp(val)}, e, k)
 	case *ast.DeclStmt:
 		gd, ok := v.Decl.(*ast.GenDecl)
